@@ -206,6 +206,12 @@ def theatre(draw, g, mode2D, names, have_ego):
             "yaw": const(draw(st.sampled_from([0.0, 0.0, draw(U(-0.4, 0.4))]))), "pitch": const(0.0),
             "roll": const(0.0), "allowCollisions": False,
             "occluding": hidden or draw(st.integers(0, 5)) != 0}
+    if not hidden and vk != "point":
+        # the wall must not fill the whole view cone (nothing behind it could ever be seen)
+        hy = math.radians(viewer["angles"][0]) / 2
+        hp = math.radians(viewer["angles"][1]) / 2
+        wall["dims"][0] = round(min(wall["dims"][0], 1.2 * dw * math.tan(min(hy, 1.0))), 3)
+        wall["dims"][2] = round(min(wall["dims"][2], 1.6 * dw * math.tan(min(hp, 1.0))), 3)
     names.append(wall["name"])
     tname = f"o{len(names)}"
     names.append(tname)
@@ -354,9 +360,15 @@ def cases(draw):
     nops = draw(st.sampled_from([draw(st.integers(3, 10))] * 4 + [draw(st.integers(15, 25))]))
     ops = []
     for _ in range(nops):
-        ops.append(draw(st.sampled_from([["gen"], ["gen"], ["gen"], ["gen"], ["batch", 2], ["batch", 3],
-                                         ["basic"], ["weighted", 10], ["weighted", 30],
-                                         ["weighted", 100]])))
+        k = draw(st.integers(0, 9))
+        if k < 6:
+            ops.append(["gen"])
+        elif k < 8:
+            ops.append(["batch", 2 + (k - 6)])
+        elif k == 8:
+            ops.append(["basic"])
+        else:
+            ops.append(["weighted", draw(st.sampled_from([100, 100, 30, 10]))])
     times = [draw(st.sampled_from([1e-4, 1e-3, 1e-3, 1e-2, 0.1, 1.0, 10.0]))
              for _ in range(draw(st.integers(3, 24)))]
     return {"mode2D": mode2D, "groups": groups, "reqs": reqs, "param": have_param, "workspace": ws,
